@@ -1,5 +1,6 @@
 """C08 — reported match positions are valid and are a witness of the match."""
 ID = "C08"
+EXTRA_PROPS = ["AndMergeTables"]   # merge_matched_items / range_char_indices as TRANSLATED from the source = the model
 N_QUICK, N_THOROUGH = 12000, 500000
 STRICT_MODEL = True
 PARALLEL = 4
@@ -312,3 +313,4 @@ LEVEL_TEXT = ("Theorems c08_* prove for ALL texts, ranges and matcher answers sa
               "with the contracts of regex / fuzzy-matcher validated on every real answer.")
 LEVEL_NOTE = ("Trusted: Lean kernel + propext/Classical.choice/Quot.sound; the hand-written model is tied to the code only by the differential correspondence; "
               "regex crate, fuzzy-matcher and unicode-width are parameters with contracts checked per run, not proved.")
+TECHNIQUE += ' + translator tie: AndEngine::merge_matched_items (rank source, per-kind contribution, sort/dedup passes) and MatchResult::range_char_indices (the two counted slices) translated from src/engine/andor.rs and src/lib.rs and proved equal to the model (Props/AndMergeTables.lean)'
